@@ -287,6 +287,12 @@ def run(ctx: Ctx):
         "equality with a plain mapping is required only for mappings whose keys are already upper-case (DESIGN.md section 3)",
         "key upper-casing is modelled for ASCII names (RFC 5545 names are ASCII)",
     ]
+    # ------------------------------------------------------------- SUITE: calls observed in the repository's own tests
+    from vf import suite
+    suite.step(ctx, "cdict", ["P:C17"])
+    # ------------------------------------------------------------- FRESH: history independence of returned objects (spec/Fresh.tla)
+    from vf import fresh
+    fresh.step(ctx, "C17")
     return ctx.finish(rule=(
         "every transition of the reference mapping over keys {a,A,b[,B]} x values {1,2} (ops: new/update with <=2 pairs "
         "+ <=1 keyword, get/set/del/contains/get/pop/setdefault/copy/|/|=/==/keys/len/clear/popitem) replayed on 5 classes; "
